@@ -5,7 +5,9 @@ import (
 	"context"
 	"fmt"
 	"io"
+	"log/slog"
 	"math/rand/v2"
+	"os"
 	"runtime"
 	"strings"
 	"testing"
@@ -39,6 +41,10 @@ type C10Plan struct {
 	// Partial: every node serves only the protocols of its role (manufacturer
 	// DI, rendezvous TO0+TO1, owner TO2); the other responders are absent.
 	Partial bool `json:"partial,omitempty"`
+	// Debug: the process logs at debug level (as the example server does with
+	// -debug): the HTTP layer then buffers and pretty-prints every request and
+	// response body, peer-supplied bytes included, before and after handling.
+	Debug bool `json:"debug,omitempty"`
 }
 
 type c10Pos struct {
@@ -235,6 +241,17 @@ func (p *c10) Prepare(t *testing.T, tier string, seed uint64) {
 			pl.Sql = true
 			plans = append(plans, pl)
 		}
+		// another slice with debug logging switched on (the HTTP layer then
+		// buffers and pretty-prints peer-supplied bodies around the handler)
+		r = rand.New(rand.NewPCG(seed, 78))
+		for i := 0; i < n; i++ {
+			pl := plans[r.IntN(len(plans))]
+			if pl.Kind == "none" || pl.Debug {
+				continue
+			}
+			pl.Debug = true
+			plans = append(plans, pl)
+		}
 	}
 	p.plans[tier] = plans
 }
@@ -246,12 +263,23 @@ func (p *c10) Plan(tier string, seed uint64, i int) any {
 }
 func (p *c10) Shrink(plan any) []any {
 	pl := plan.(*C10Plan)
+	var out []any
 	if pl.Sql {
 		c := *pl
 		c.Sql = false
-		return []any{&c}
+		out = append(out, &c)
 	}
-	return nil
+	if pl.Debug {
+		c := *pl
+		c.Debug = false
+		out = append(out, &c)
+	}
+	if pl.Partial {
+		c := *pl
+		c.Partial = false
+		out = append(out, &c)
+	}
+	return out
 }
 func (p *c10) Exec(env *Env, plan any) {
 	pl := plan.(*C10Plan)
@@ -524,6 +552,12 @@ func c10Run(env *Env, pl *C10Plan, collect map[c10Pos][]byte, baseAlloc uint64) 
 	s, cleanup := NewStdSql(nil, cfg, sqlNodes)
 	defer cleanup()
 	s.Net.MaxMsgs = 600
+	if pl.Debug || os.Getenv("VERIF_C10_DEBUG") != "" {
+		o.Fault("debug-logging-on")
+		old := slog.Default()
+		slog.SetDefault(slog.New(slog.NewTextHandler(io.Discard, &slog.HandlerOptions{Level: slog.LevelDebug})))
+		defer slog.SetDefault(old)
+	}
 	if pl.Partial {
 		for name, roles := range map[string][]string{"mfg": {"DI"}, "rv": {"TO0", "TO1"}, "owner1": {"TO2"}, "owner2": {"TO2"}} {
 			if n := s.Nodes[name]; n != nil {
